@@ -649,6 +649,12 @@ M('c06-namesize-through-uint8', 'C06', 'src/containers/qhasharr.c',
   'WID3', 'put_data', 'a size squeezed through an 8-bit local')
 
 
+M('c15-getmulti-sentinel-late', 'C15', 'src/containers/qlisttbl.c',
+  "        // clear next block\n        newobj = &objs[numfound];\n        memset((void *)newobj, '\\0', sizeof(qlisttbl_data_t));\n        newobj->type = 0;  // mark, end of objects\n    }",
+  "    }\n    if (objs != NULL) {\n        memset((void *)&objs[numfound], '\\0', sizeof(qlisttbl_data_t));\n    }",
+  'GR2', 'qlisttbl_getmulti', 'end-of-array mark written only after the loop, the in-loop failure path frees an open array')
+
+
 def run_selftest(prop, rep, rule_fn, config='cmake-release'):
     """Apply every mutant of `prop` to a scratch copy, run rule_fn(prog, report) on it, and
     require a finding of the expected rule (and function)."""
